@@ -68,7 +68,7 @@ Proof.
     rewrite verts_cons in Hi. constructor.
     - split; [symmetry; exact Hfl|]. eapply perm_trans; [apply Permutation_map; apply Permutation_sym; exact Hc|].
       rewrite map_map. rewrite (map_ext_in _ (fun x => x)); [rewrite map_id; apply Permutation_refl|].
-      intros u Hu. assert (In u (seq 0 n)) by (apply Hi; apply in_or_app; left; exact Hu). apply in_seq in H0.
+      intros u Hu. assert (Hun : In u (seq 0 n)) by (apply Hi; apply in_or_app; left; exact Hu). apply in_seq in Hun.
       apply (finv_spec f Hf u). lia.
     - apply IH. intros u Hu. apply Hi. apply in_or_app. right. exact Hu. }
   apply G; assumption.
